@@ -393,6 +393,12 @@ type Update struct {
 	// PartialFirst: on the wire the partial filter precedes the delete filter (SPINE fixes no order of the
 	// filters of one command; the meaning — delete first, then partial — must not depend on it)
 	PartialFirst bool
+	// NestedElem (opt-in; 0 = off, which is what GenUpdate produces): the ELEMENTS part of the delete filter
+	// does not carry an empty value for a named item field whose elements type is a struct (value, timePeriod,
+	// ...), it names one or two SUB elements of it ({value:{number:{}}}); which ones is a pure function of the
+	// number. What such a filter means for the data is deliberately not modelled (RefApply ignores the field):
+	// only checks whose oracle does not depend on the resulting data (C11) set it.
+	NestedElem int
 }
 
 // FieldMatch: the item field with index Field must equal Val (a non-nil pointer of the field's type).
@@ -580,11 +586,57 @@ func (li *ListInfo) Filters(u Update) (fp, fd *model.FilterType, ok bool) {
 					return nil, nil, false
 				}
 				ef.Set(reflect.New(ef.Type().Elem()))
+				if u.NestedElem > 0 {
+					setSubElements(ef.Elem(), u.NestedElem)
+				}
 			}
 			reflect.ValueOf(fd).Elem().Field(li.ElIdx).Set(e)
 		}
 	}
 	return fp, fd, true
+}
+
+// subElementFields: the pointer-typed fields of an elements struct (the sub elements it can name).
+func subElementFields(t reflect.Type) (fs []int) {
+	if t.Kind() != reflect.Struct {
+		return nil
+	}
+	for i := 0; i < t.NumField(); i++ {
+		if t.Field(i).Type.Kind() == reflect.Ptr && t.Field(i).IsExported() {
+			fs = append(fs, i)
+		}
+	}
+	return fs
+}
+
+// setSubElements names one or two sub elements in the elements struct e (addressable), chosen by n >= 1.
+func setSubElements(e reflect.Value, n int) {
+	fs := subElementFields(e.Type())
+	k := len(fs)
+	if k == 0 {
+		return
+	}
+	first := (n - 1) % k
+	set := func(i int) { e.Field(fs[i]).Set(reflect.New(e.Field(fs[i]).Type().Elem())) }
+	set(first)
+	if k > 1 && ((n-1)/k)%2 == 1 {
+		set((first + 1 + ((n-1)/(2*k))%(k-1)) % k)
+	}
+}
+
+// NestableElems returns the non-key item fields for which a delete filter can name sub elements
+// (Update.NestedElem): the field of the elements type is a pointer to a struct with pointer fields.
+func (li *ListInfo) NestableElems() (fs []int) {
+	if li.ElT == nil {
+		return nil
+	}
+	for _, fi := range li.NonKeyPtr {
+		ef, ok := li.ElT.FieldByName(li.ElemT.Field(fi).Name)
+		if ok && ef.Type.Kind() == reflect.Ptr && len(subElementFields(ef.Type.Elem())) > 0 {
+			fs = append(fs, fi)
+		}
+	}
+	return fs
 }
 
 // GenUpdate draws an update of the given shape over identifier domain [0,dom). ok=false if the
@@ -687,6 +739,9 @@ func (u Update) String() string {
 	}
 	if len(u.DelElem) > 0 {
 		s += fmt.Sprintf(" delelem=%v", u.DelElem)
+	}
+	if u.NestedElem > 0 {
+		s += fmt.Sprintf(" sub-elements(%d)", u.NestedElem)
 	}
 	for _, m := range u.DelMatch {
 		s += fmt.Sprintf(" delmatch(field %d)=%s", m.Field, Canon(m.Val.Elem()))
